@@ -7,6 +7,7 @@ import LekkerVerif.Properties.C05
 import LekkerVerif.Properties.C05Defaults
 import LekkerVerif.Properties.C06
 import LekkerVerif.Properties.C07
+import LekkerVerif.Properties.C07Net
 import LekkerVerif.Properties.C08
 import LekkerVerif.Properties.C09
 import LekkerVerif.Properties.C10
